@@ -914,7 +914,8 @@ def _elementwise(f, *args):
     if any(isinstance(a, np.ndarray) and a.shape != () for a in args):
         g = np.frompyfunc(f, len(args), 1)
         return g(*[_box(a) for a in args])
-    args = [a.item() if isinstance(a, np.ndarray) else a for a in args]
+    # (numpy scalars become Python numbers: `np.float64 - proxy` re-enters this dispatch through numpy's reflected operator otherwise)
+    args = [a.item() if isinstance(a, (np.ndarray, np.generic)) else a for a in args]
     return f(*args)
 
 
